@@ -4,6 +4,7 @@
 
     EF <record>            →  EventPack.Write's attribute folding (Packs.Event.fold): the table as on the wire
     EU <record>            →  EventPack.Read's unfolding (Packs.Event.unfold) of a wire table
+    R                      →  the factory as regenerated: code:Type,…  (Gen.Packs.registry)
     K                      →  the bounded tables: Type:field:limit,…  (Packs.expectedCaps: the model's statement; C03Gen.caps_as_recorded ties the constructors to it)
     DK <Type> <hex>        →  like D, then the bounded table keeps its last `limit` rows (Packs.capRows)
     C <hex>                →  a type-tagged pack tree (CompositePack to any depth, Packs.Tree.readPT) decoded
@@ -274,6 +275,7 @@ def answer (line : String) : String :=
       | some (t, rest) => s!"ok {showOut (showTree "" t)} {rest.length}"
       | none => "fail"
     | none => "bad-hex"
+  | ["R"] => ",".intercalate (Gen.Packs.registry.map (fun (c, t) => s!"{c}:{t}"))
   | ["K"] => ",".intercalate (Packs.expectedCaps.map (fun (t, f, m) => s!"{t}:{f}:{m}"))
   | ["DK", ty, hex] =>
     match table.get? ty, ofHex hex with
